@@ -214,22 +214,85 @@ def kinds_at(node, rn):
     return None
 
 
+class _ConstFoldExec(SymExec):
+    """SymExec that folds `not <concrete str / list / dict>` (python truthiness of a concrete value), as SymExec.decide already does for tests"""
+
+    def e_UnaryOp(self, n, st):
+        if isinstance(n.op, ast.Not):
+            v = self.ev(n.operand, st)
+            if isinstance(v, str) or (isinstance(v, (list, tuple, dict)) and not v):
+                return not v
+        return SymExec.e_UnaryOp(self, n, st)
+
+
+def to_dict_names_unnamed_controls_by_key(repo):
+    """wntr.network.io.to_dict, executed symbolically on a model whose control registry holds one control under the key K: the entry of that
+    control in the returned dictionary carries the name K if the control's own name is empty, and its own name otherwise."""
+    td = repo.func("wntr/network/io.py", "to_dict")
+    got = {}
+    for own in ("", "given"):
+        def call(name, n, args, kwargs, st, ex, recv, own=own):
+            meth = n.func.attr if isinstance(n.func, ast.Attribute) else None
+            rt = ex.text(recv) if recv is not None and not isinstance(recv, (dict, list, tuple)) else ""
+            if meth in ("items", "controls") and not args and ("_controls" in rt or meth == "controls"):
+                return [(Opaque("K"), Opaque("CTRL"))]
+            if meth == "values" and not args and "_controls" in rt:
+                return [Opaque("CTRL")]
+            if meth == "to_dict" and rt == "CTRL":
+                return {"name": own, "type": Opaque("T")}
+            if isinstance(recv, dict) and not args and meth in ("keys", "values", "items"):
+                return list(getattr(recv, meth)())
+            if isinstance(recv, dict) and meth == "get" and args and isinstance(args[0], str):
+                return recv.get(args[0], args[1] if len(args) > 1 else None)
+            if name == "dict" and not args:
+                return dict(kwargs)
+            if name == "dict" and len(args) == 1 and isinstance(args[0], dict):
+                return dict(args[0], **kwargs)
+            if name in ("list", "OrderedDict") and not args and not kwargs:
+                return [] if name == "list" else {}
+            return NotImplemented
+        ex = _ConstFoldExec(call_hook=call)
+        ex.unroll_opaque = True
+        ex.MAX_PATHS = 256
+        outs = [o for o in ex.run(td) if o.raised is None and o.done is True]
+        names = set()
+        for o in outs:
+            ctl = o.ret.get("controls") if isinstance(o.ret, dict) else None
+            if not (isinstance(ctl, list) and len(ctl) == 1 and isinstance(ctl[0], dict)):
+                return False
+            names.add(ex.text(ctl[0].get("name")))
+        if len(names) != 1:
+            return False
+        got[own] = names.pop()
+    return got == {"": "K", "given": "'given'"}
+
+
 def named_exemption_write_rules(repo, fnode, store):
     """`if c.name == '': c._name = <registry key>` inside `for <key>, c in wn.controls()`, and to_dict substitutes the key for an empty name."""
-    p = parent(store)
-    if not (isinstance(p, ast.If) and unparse(p.test).replace('"', "'").endswith(".name == ''")):
+    if not (isinstance(store, ast.Assign) and len(store.targets) == 1 and isinstance(store.targets[0], ast.Attribute)):
         return False
-    loop = p
-    while loop is not None and not isinstance(loop, ast.For):
-        loop = parent(loop)
-    if loop is None or "controls()" not in unparse(loop.iter) or not isinstance(loop.target, ast.Tuple):
+    recv = unparse(store.targets[0].value)
+    empty = {recv + ".name == ''", "'' == " + recv + ".name", "not " + recv + ".name", recv + "._name == ''", "not " + recv + "._name"}
+    guarded, q, loop = False, store, None
+    while q is not None and q is not fnode:
+        pq = parent(q)
+        if isinstance(pq, ast.If) and q in pq.body and unparse(pq.test).replace('"', "'") in empty:
+            guarded = True
+        if isinstance(pq, ast.For) and q in pq.body and isinstance(pq.target, ast.Tuple) and len(pq.target.elts) == 2 \
+                and unparse(pq.target.elts[1]) == recv:
+            loop = pq
+            break
+        q = pq
+    if not guarded or loop is None:
+        return False
+    it = through_temporaries(fnode, loop.iter)
+    if not (isinstance(it, ast.Call) and last_attr(it) in ("controls", "items") and ("controls" in unparse(it))):
         return False
     key = loop.target.elts[0]
-    if not (isinstance(store, ast.Assign) and isinstance(store.value, ast.Name) and isinstance(key, ast.Name) and store.value.id == key.id):
+    val = through_temporaries(fnode, store.value)
+    if not (isinstance(val, ast.Name) and isinstance(key, ast.Name) and val.id == key.id):
         return False
-    td = repo.func("wntr/network/io.py", "to_dict")
-    txt = unparse(td).replace('"', "'")
-    return "cc['name'] = k" in txt and "not cc['name']" in txt
+    return to_dict_names_unnamed_controls_by_key(repo)
 
 
 def sim_side(f):
@@ -562,6 +625,13 @@ def apply_fn(ex, fnode, inst):
 
 def apply_insts(ex, fnode, inst):
     return [o.env["__inst__"] for o in apply_fn(ex, fnode, inst)]
+
+
+def same_value(ex, a, b):
+    """ex.same, but constants must agree in type too (False is not 0, None is only None)"""
+    if a is None or b is None or isinstance(a, (bool, int, float, str)) or isinstance(b, (bool, int, float, str)):
+        return type(a) is type(b) and a == b
+    return ex.same(a, b)
 
 
 class ResetEval(object):
@@ -931,7 +1001,7 @@ def run(repo, chk):
         for fld in sorted(inst.fields):
             if fld in EXPECT:
                 want = rev.expected(k, EXPECT[fld][1])
-                chk.expect(rev.ex.same(inst.fields[fld], want), "R-C11-3", "reset value of %s.%s is %s" % (k, fld, EXPECT[fld][0]), loc(rs),
+                chk.expect(same_value(rev.ex, inst.fields[fld], want), "R-C11-3", "reset value of %s.%s is %s" % (k, fld, EXPECT[fld][0]), loc(rs),
                            found=rev.ex.text(inst.fields[fld]), expected=rev.ex.text(want))
     tank = rev.inst["Tank"]
     th = tank.fields.get("_head")
@@ -969,6 +1039,15 @@ def run(repo, chk):
 _CHAIN = ("        self._private_attribute = attribute\n        if attribute == 'status':\n            self._private_attribute = '_user_status'\n"
           "        elif attribute == 'leak_status':\n            self._private_attribute = '_leak_status'\n"
           "        elif attribute == 'setting':\n            self._private_attribute = '_setting'\n")
+_LINK_BODY = ("            link._user_status = link.initial_status\n            link._setting = link.initial_setting\n"
+              "            link._internal_status = LinkStatus.Active\n            link._is_isolated = False\n            link._flow = None\n")
+_LINK_RESET = ("        for name, link in self.links(Pipe):\n" + _LINK_BODY + "            link._prev_setting = None\n\n"
+               "        for name, link in self.links(Pump):\n" + _LINK_BODY + "            if isinstance(link, PowerPump):\n                link.power = link._base_power\n"
+               "            link._prev_setting = None\n\n"
+               "        for name, link in self.links(Valve):\n" + _LINK_BODY + "            link._prev_setting = None\n")
+_LINK_RESET_MERGED = ("        for link_type in (Pipe, Pump, Valve):\n            for name, link in self.links(link_type):\n"
+                      + "".join("    " + l + "\n" for l in _LINK_BODY.splitlines())
+                      + "                if isinstance(link, PowerPump):\n                    link.power = link._base_power\n                link._prev_setting = None\n")
 WITNESSES = [
     dict(name="results-stored-into-definition-field", file=HYD, old="            node._pressure = m.head[name].value - node.elevation\n",
          new="            node._pressure = m.head[name].value - node.elevation\n            node._elevation = node.elevation\n", rule="R-C11-1"),
@@ -1041,6 +1120,22 @@ WITNESSES = [
     # R-C11-1c: reset_initial_values writes run-time fields only
     dict(name="reset-rewrites-tank-init-level", file=MODEL, old="            node._prev_head = node.head\n",
          new="            node._prev_head = node.head\n            node.init_level = node.level\n", rule="R-C11-1c"),
+    # reset table / exemption derived from meaning, not from loop or dictionary shapes
+    dict(name="reset-link-loops-merged-preserving", file=MODEL, old=_LINK_RESET, new=_LINK_RESET_MERGED, silent=True),
+    dict(name="reset-link-loops-merged-valves-forgotten", file=MODEL, old=_LINK_RESET, new=_LINK_RESET_MERGED.replace("(Pipe, Pump, Valve)", "(Pipe, Pump)"), rule="R-C11-3"),
+    dict(name="reset-link-loops-merged-setting-from-current", file=MODEL, old=_LINK_RESET,
+         new=_LINK_RESET_MERGED.replace("link._setting = link.initial_setting", "link._setting = link.setting"), rule="R-C11-3"),
+    dict(name="reset-tank-loop-renamed-and-hoisted-preserving", file=MODEL,
+         old="        for name, node in self.nodes(Tank):\n            node._head = node.init_level + node.elevation\n            node._prev_head = node.head\n",
+         new="        for tank_name, tank in self.tanks():\n            start_head = tank.elevation + tank.init_level\n            tank._prev_head = tank._head = start_head\n"
+             "            node = tank\n", silent=True),
+    dict(name="to-dict-renamed-locals-dict-literal-preserving", file="wntr/network/io.py",
+         old="    controls = list()\n    for k, c in wn._controls.items():\n        cc = c.to_dict()\n        if \"name\" in cc.keys() and not cc[\"name\"]:\n"
+             "            cc[\"name\"] = k\n        controls.append(cc)\n",
+         new="    controls = []\n    for ctrl_name, ctrl in wn._controls.items():\n        entry = ctrl.to_dict()\n        if \"name\" in entry and not entry[\"name\"]:\n"
+             "            entry[\"name\"] = ctrl_name\n        controls.append(entry)\n", silent=True),
+    dict(name="to-dict-keeps-empty-rule-name", file="wntr/network/io.py",
+         old="        if \"name\" in cc.keys() and not cc[\"name\"]:\n            cc[\"name\"] = k\n", new="", rule="R-C11-1"),
     dict(name="simulator-internal-store-preserving", file=CORE, old="        self._report_timestep = self._wn.options.time.report_timestep\n",
          new="        self._report_timestep = self._wn.options.time.report_timestep\n        self._n_runs = 1\n", silent=True),
 ]
